@@ -389,3 +389,103 @@ def run_when_values(P, rep, rule="R-KEEPVALS"):
                 bad.append((t["line"], f["id"].rsplit("::", 1)[1]))
     for line, nm in bad:
         rep.viol(rule, "parse_condition %s" % nm, P.where(fn, line), "`%s` on the list of `when` values: values are compared/removed at parse time" % nm)
+
+
+# ---------------------------------------------------------------------------------------
+# R-UNCLOSED: running out of input inside a block is an error
+
+def run_unclosed(P, rep, rule="R-UNCLOSED"):
+    """TagBlock::next: when the shared element iterator is exhausted (a nested block already consumed EOI) or yields EOI, the only
+    way out is an Err return — never Ok(None)/Ok(Some): an unclosed block must be reported even when an enclosing block (comment)
+    ignores the nested error."""
+    from kreach import kreach
+    from origins import SelfOrigins
+    from r_fwd import field_names
+    fn = P.fn_by_key("<liquid_core::parser::parser::TagBlock>::next")
+    names = field_names(P, fn)
+    so = SelfOrigins(P, fn)
+    nexts = []
+    for bi, t in P.calls(fn):
+        f = t.get("f")
+        if f and f["id"].rsplit("::", 1)[1] == "next" and t["args"]:
+            ol = op_local(t["args"][0])
+            og = so.place_origin([ol[0], ol[1]]) if ol else None
+            if og and og != () and og[0] < len(names) and names[og[0]] == "iter":
+                nexts.append((bi, t))
+    site = "TagBlock::next exhausted-iterator"
+    if len(nexts) != 1:
+        rep.viol(rule, site, P.where(fn), "expected one pull from self.iter, found %d" % len(nexts))
+        return
+    bi, t = nexts[0]
+    holder = t["d"][0]
+    # case B: Option -> ok_or/ok_or_else -> `?`
+    for b2, t2 in P.calls(fn):
+        a0 = op_local(t2["args"][0]) if t2.get("args") else None
+        if a0 and a0[0] == holder and t2.get("f") and t2["f"]["id"].rsplit("::", 1)[1] in ("ok_or_else", "ok_or"):
+            r2 = t2["d"][0]
+            br = [t3 for b3, t3 in P.calls(fn) if t3.get("f") and t3["f"]["id"].endswith("Try::branch") and op_local(t3["args"][0]) and op_local(t3["args"][0])[0] == r2]
+            if br:
+                rep.ok(rule, site, P.where(fn, t["line"]), "self.iter.next().ok_or_else(error)? — exhaustion becomes an Err that is propagated")
+                return
+    # case A: match on the Option
+    cur = t["t"]
+    none = None
+    for _ in range(6):
+        b = fn.blocks[cur]
+        tt = b["t"]
+        if tt["k"] == "switch":
+            ol = op_local(tt["o"])
+            if any(st[0] == "a" and ol and st[1][0] == ol[0] and st[2]["k"] == "discr" and st[2]["p"][0] == holder for st in b["s"]):
+                none = [tb for v, tb in tt["t"] if v == 0] or [tt["else"]]
+            break
+        cur = tt.get("t") if tt["k"] in ("goto", "drop") else None
+        if cur is None:
+            break
+    if none is None:
+        rep.viol(rule, site, P.where(fn, t["line"]), "the result of self.iter.next() is neither matched nor turned into an error with ok_or_else")
+        return
+    reach = kreach(P, fn, none)
+    oks = []
+    for b2 in sorted(reach):
+        for st in fn.blocks[b2]["s"]:
+            if st[0] == "a" and st[1][0] == 0 and not st[1][1] and st[2]["k"] == "agg" and st[2].get("vname") == "Ok":
+                oks.append(st[3] if len(st) > 3 else 0)
+    if oks:
+        rep.viol(rule, site, P.where(fn, oks[0]),
+                 "when the element iterator is exhausted the block reader can return Ok: an unclosed block inside a block that ignores nested errors is accepted")
+    else:
+        rep.ok(rule, site, P.where(fn, t["line"]), "the None edge of self.iter.next() reaches only error returns")
+
+
+# ---------------------------------------------------------------------------------------
+# R-SRCVERBATIM: the source text reaches the grammar exactly as given
+
+def run_source_verbatim(P, rep, rule="R-SRCVERBATIM"):
+    """liquid::Parser::parse hands its `text` parameter to liquid_core::parser::parse unmodified (no trimming, BOM stripping,
+    normalisation); and parser::parse hands its `text` to the pest parser unmodified."""
+    from origins import backward_slice
+    specs = [("<liquid::parser::Parser>::parse", lambda f: f["id"] == "liquid_core::parser::parser::parse", 0, 2),
+             ("liquid_core::parser::parser::parse", lambda f: f["id"].endswith("Parser::parse") and "pest" in f["name"], 1, 1)]
+    ALLOW = {"deref", "as_ref", "as_str", "borrow", "into", "from"}
+    for key, pred, argi, param in specs:
+        fns = P.by_key(key)
+        site = key.split(">::")[-1] if ">::" in key else key.rsplit("::", 2)[-2] + "::" + key.rsplit("::", 1)[-1]
+        site = ("liquid::Parser::parse" if key.startswith("<liquid::") else "parser::parse") + " text"
+        if len(fns) != 1:
+            rep.anchor_missing(rule, key)
+            continue
+        fn = fns[0]
+        calls = [(bi, t) for bi, t in P.calls(fn) if t.get("f") and pred(t["f"])]
+        if len(calls) != 1:
+            rep.viol(rule, site, P.where(fn), "expected exactly one hand-over of the text to the next parsing stage, found %d" % len(calls))
+            continue
+        bi, t = calls[0]
+        ol = op_local(t["args"][argi]) if len(t["args"]) > argi else None
+        locs, cs = backward_slice(fn, ol[0]) if ol else (set(), [])
+        bad = [c["f"]["name"] for c in cs if c.get("f") and c["f"]["id"].rsplit("::", 1)[1] not in ALLOW]
+        if param not in locs:
+            rep.viol(rule, site, P.where(fn, t["line"]), "the text handed on does not derive from the `text` parameter")
+        elif bad:
+            rep.viol(rule, site, P.where(fn, t["line"]), "the source text passes through `%s` before it is parsed: what is parsed is not what was given" % bad[0])
+        else:
+            rep.ok(rule, site, P.where(fn, t["line"]), "the `text` parameter is handed on as is")
